@@ -131,11 +131,24 @@ def unjson(h):
 # ---------------------------------------------------------------------------
 # implementation side
 # ---------------------------------------------------------------------------
+_storage = [0]
+
+
 def make_probe(h):
     p, o = h["probe"], h["ori"]
     kw = {} if o is None else {"orientations": np.array(o, float)}
+    _storage[0] += 1
+    if o is not None and np.array_equal(np.array(o, float), np.round(np.array(o, float))) and _storage[0] % 2 == 0:
+        # normals written with integers, e.g. orientations=(0, 0, 1): the same vectors
+        kw["orientations"] = np.array(o, float).astype(np.int64) if _storage[0] % 4 == 0 else [int(v) for v in o] \
+            if np.ndim(o) == 1 else [[int(v) for v in r_] for r_ in o]
+        chk.count(probe_storage="integer-typed normals")
     if p[0] == "M":
-        return arim.Probe.make_matrix_probe(p[1], p[2], p[3], p[4], FREQ, **kw)
+        px, py = p[2], p[4]
+        if _storage[0] % 3 == 0 and all(np.isnan(v) or float(np.float32(v)) == float(v) for v in (px, py)):
+            px, py = np.float32(px), np.float32(py)            # single-precision pitches that hold the same numbers
+            chk.count(probe_storage="float32 pitches")
+        return arim.Probe.make_matrix_probe(p[1], px, p[3], py, FREQ, **kw)
     return arim.Probe(np.array(p[1], float).reshape(-1, 3), FREQ, **kw)
 
 
